@@ -448,6 +448,8 @@ class ExprMixin:
                 return AV(types=frozenset({"function"}), fn=("func", ent, None))
             if isinstance(ent, ConstDef):
                 return self.const_def_av(ent, frame, st, n)
+        if base.fn is not None and base.fn[0] == "builtin" and base.fn[1] == "dict" and attr == "fromkeys":
+            return AV(types=frozenset({"builtin"}), fn=("builtin", "dict.fromkeys"))
         if base.fn is not None and base.fn[0] == "super":
             _, cls_q, after, self_av = base.fn
             fi = self.prog.find_method(cls_q, attr, after=after)
